@@ -220,8 +220,10 @@ Proof.
     apply encode_layout_nonempty with (sz := if i_is64 s then 55%nat else 31%nat); [exact Hf|].
     unfold L_phdr. rewrite size_Phdr. destruct (i_is64 s); reflexivity. }
   split; [lia|].
-  apply struct_parse_at_exact with (L := L_phdr s) (vals := phdr_vals (i_is64 s) p) (t := t).
+  apply struct_parse_at_exact with (L := L_phdr s) (vals := phdr_vals (i_is64 s) p) (t := t)
+                                   (n := if i_is64 s then 56%nat else 32%nat).
   - apply gen_Elf_Phdr_gabi.
+  - apply size_Phdr.
   - exact Hf.
   - exact Ht.
   - pose proof (wf_len img s Hwf). rewrite SEEK_LIMIT_val. lia.
